@@ -60,6 +60,74 @@ def judge(byc, res):
             res["nontrivial"].add(hash(("".join(toks), name)) & 0xffffffffffff)
 
 
+def _nest(d, tag):
+    """d levels of documents (and, every third level, an array); keys in neither alphabetical nor reverse order at every level"""
+    node = ('obj', [("zeta", ('str', "v-%s" % tag)), ("alpha", ('num', "-0.0")), ("Beta", ('bool', True)), ("m1", ('num', "1E5"))])
+    for lvl in range(d, 0, -1):
+        inner = ('arr', [node]) if lvl % 3 == 0 else node
+        node = ('obj', [("zz%d" % lvl, ('str', "s%d" % lvl)), ("mid", inner), ("aa", ('num', "12345678901234567890123")), ("Ab", ('null', None))])
+    return node
+
+
+def depth_ladder(b, v, cs, tier):
+    """The same comparison at nesting depths TLC's bounded trees do not reach (the walkers and the order-preserving reader are recursive):
+    a deep document outside the zones (top level, attr, a command field that is no zone) and inside one (filter: keys stay, leaves change)."""
+    import tempfile, shutil
+    depths = [1, 2, 5, 9, 17, 28, 30, 31, 32, 33, 34, 35, 40, 63, 64, 65, 100, 127, 128, 129, 200] if tier == "quick" else list(range(1, 140)) + [200, 255, 256, 257, 500, 1000]
+    lines, meta = [], []
+    for d in depths:
+        for pos in ("top", "attr", "cmdfield", "filter", "documents"):
+            deep = _nest(d, "%s%d" % (pos, d))
+            cmd = [("find", ('str', "collZn")), ("filter", ('obj', [("uf1", deep if pos == "filter" else ('str', "lit"))]))]
+            if pos == "documents":
+                cmd = [("insert", ('str', "collZn")), ("documents", ('arr', [deep]))]
+            if pos == "cmdfield":
+                cmd.append(("readConcern", deep))
+            cmd.append(("$db", ('str', "dbZn")))
+            attr = [("type", ('str', "command")), ("ns", ('str', "dbZn.collZn")), ("command", ('obj', cmd))]
+            if pos == "attr":
+                attr.append(("storage", deep))
+            top = [("t", ('obj', [("$date", ('str', "2025-05-30T09:47:39.001+00:00"))])), ("s", ('str', "I")), ("c", ('str', "COMMAND")),
+                   ("id", ('num', str(len(lines)))), ("ctx", ('str', "conn7")), ("msg", ('str', "Slow query")), ("attr", ('obj', attr))]
+            if pos == "top":
+                top.append(("extra", deep))
+            lines.append(jsonx.dumps(('obj', top)))
+            meta.append((d, pos))
+    work = tempfile.mkdtemp(prefix="c04-deep-", dir=b.root)
+    try:
+        for cfg in cs:
+            if cfg.encrypt:
+                continue
+            crashed = {}
+            got, stray = l3.run_with_bisect(b, lines, list(range(len(lines))), cfg, work, None, crashed)
+            for i, ln in enumerate(lines):
+                d, pos = meta[i]
+                v.cov["evaluations"] += 1
+                if i in crashed or i not in got:
+                    continue          # a line the tool refuses or dies on is C07's business
+                inp, out = jsonx.parse(ln), jsonx.parse(got[i])
+                v.nontrivial(("deep", min(d, 40), pos, cfg.name))
+                for ev in l3.walk_both(inp, out):
+                    kind, path = ev[0], ev[1]
+                    zone = l3.in_zone(path)
+                    bad = None
+                    if kind == 'shape' and not zone:
+                        bad = "outside-zone structure changed"
+                    elif kind == 'key' and ev[2] != ev[3] and not (zone and cfg.eager):
+                        bad = "key changed (order or spelling)"
+                    elif kind == 'leaf' and ev[2] != ev[3] and not zone and path[:2] not in (("attr", "ns"), ("attr", "remote")) \
+                            and not (len(path) == 3 and path[2] in l3.NS_COMMAND_FIELDS):
+                        bad = "outside-zone %s changed" % ev[2][0]
+                    if bad:
+                        v.violation("%s in a document nested %s levels deep (%s) flags=%s" % (bad, "more than 30" if d > 30 else "up to 30", pos, " ".join(cfg.flags())),
+                                    {"depth": d, "position": pos, "path_tail": [str(x) for x in path[-4:]], "flags": cfg.flags(),
+                                     "input": ln[:3000], "output": got[i][:3000]})
+                        break
+    finally:
+        shutil.rmtree(work, ignore_errors=True)
+    return len(lines)
+
+
 def cfgs(tier):
     cs = [l3.Cfg("base"),
           l3.Cfg("all", num=True, bool=True, ips=True, ns=True),
@@ -87,15 +155,18 @@ def run(tier):
         states += t.distinct
         trans += t.generated
     rp.finish()
+    deep_lines = depth_ladder(b, v, cs, tier)
     for s in rp.stray_samples[:3]:
         v.violation("an emitted line is not a JSON object carrying the line's id (its content was altered): %s" % s["why"], s)
     v.cov.update({"states": states, "transitions": trans, "traces_validated_against_impl": v.cov["evaluations"],
                   "exhaustive": True, "abstract_cases": rp.records, "flag_sets": [c.desc() for c in cs],
-                  "lines_without_output": rp.extra.get("no_output", 0), "crashed_lines": rp.crashes,
+                  "lines_without_output": rp.extra.get("no_output", 0), "crashed_lines": rp.crashes, "depth_ladder_lines": deep_lines,
                   "rule": "cases = states of RedactorEW (5 components x 2 messages x 10 holders x 5 namespace relations x 14 slots x 6 contents, "
                           "plus lines without / with a non-document attr), RedactorFree (every vocabulary key in every slot), RedactorTW (every table "
                           "entry); each concretised with exotic number literals (1E5, -0.0, 1e400, 23-digit integers) and escape-heavy / non-BMP strings "
-                          "outside the zones; non-trivial = at least one protected position compared; distinct by (outcome pattern, flag set)",
+                          "outside the zones; plus a depth ladder (documents nested 1..200 levels, thorough 1..1000, with unsorted keys at every level, at the top level, "
+                          "in attr, in a command field that is no zone, in the filter and in an inserted document); "
+                          "non-trivial = at least one protected position compared; distinct by (outcome pattern, flag set)",
                   "trusted_base": ["TLC", "lib/jsonx.py", "lib/l3.py"]})
     v.assumptions += ["zone = the query-bearing keys of attr.command/cmd/originatingCommand named in the statement of C01/C04",
                       "no duplicate sibling keys; valid UTF-8"]
